@@ -100,6 +100,15 @@ def run_case(case, ctx):
     psi_s.A[-1] = psi_s.A[-1] * scale
     totals0 = (list(map(int, psi.qD[0])), list(map(int, psi.qD[-1])))
     for call in range(3 if steps == 1 and it == 3 else 1):      # repeated calls on the same state
+        if call == 2:
+            # between the second and the third call the SAME Hamiltonian object is modified in place (rescaled first tensor):
+            # the third call must conserve the energy of the modified operator
+            H.A[0] *= 1.5
+            Hd = dense.mpo_to_matrix(H.A)
+            hb = ec.mpo_bytes(H)
+            e0 = energy(dense.mps_to_vector(psi.A), Hd).real
+            escale = 1 + float(np.max(np.abs(Hd)))
+            ctx.cls('hamiltonian_modified_between_calls')
         r = run_integrator(integ, H, psi, dt, steps, it)
         ctx.calls += 1
         v = dense.mps_to_vector(psi.A)
